@@ -2197,41 +2197,50 @@ hdf_close(NC *handle)
             HGOTO_FAIL(FAIL);
         }
 
-#ifdef WRITE_NDG
-        /* the old-style NDG of a record variable holds the number of records as the first dimension of its
-           DFTAG_SDD record: bring it up to date too, or the DFSD interface keeps seeing the old extent */
-        if (handle->vars) {
-            tmp  = handle->vars;
-            vars = handle->vars->values;
-            for (i = 0; i < tmp->count; i++, vars += tmp->szof) {
-                int32  gid, sdd_aid;
-                uint16 etag, eref, sddref = 0;
-                uint8  nbuf[4], *np       = nbuf;
+    } /* end if we need to flush out unlimited dimensions? */
 
-                vp = (NC_var **)vars;
-                if (!IS_RECVAR(*vp) || (*vp)->ndg_ref == 0)
-                    continue;
-                if ((gid = DFdiread(handle->hdf_file, DFTAG_NDG, (*vp)->ndg_ref)) == FAIL)
-                    continue;
-                while (DFdiget(gid, &etag, &eref) == SUCCEED)
-                    if (etag == DFTAG_SDD)
-                        sddref = eref;
-                if (sddref == 0)
-                    continue;
+#ifdef WRITE_NDG
+    /* the old-style NDG of a record variable holds the number of records as the first dimension of its
+       DFTAG_SDD record: bring it up to date too, or the DFSD interface keeps seeing the old extent.
+       A variable can grow without the file's record count growing, so this does not depend on NC_NDIRTY. */
+    if ((handle->flags & NC_RDWR) && handle->vars) {
+        tmp  = handle->vars;
+        vars = handle->vars->values;
+        for (i = 0; i < tmp->count; i++, vars += tmp->szof) {
+            int32  gid, sdd_aid, old_recs;
+            uint16 etag, eref, sddref = 0;
+            uint8  nbuf[4], *np       = nbuf;
+
+            vp = (NC_var **)vars;
+            if (!IS_RECVAR(*vp) || (*vp)->ndg_ref == 0)
+                continue;
+            if ((gid = DFdiread(handle->hdf_file, DFTAG_NDG, (*vp)->ndg_ref)) == FAIL)
+                continue;
+            while (DFdiget(gid, &etag, &eref) == SUCCEED)
+                if (etag == DFTAG_SDD)
+                    sddref = eref;
+            if (sddref == 0)
+                continue;
+            if ((sdd_aid = Hstartaccess(handle->hdf_file, DFTAG_SDD, sddref, DFACC_RDWR)) == FAIL)
+                continue;
+            if (Hseek(sdd_aid, 2, DF_START) == FAIL || Hread(sdd_aid, 4, nbuf) != 4) {
+                Hendaccess(sdd_aid);
+                continue;
+            }
+            INT32DECODE(np, old_recs);
+            if (old_recs != (int32)(*vp)->numrecs) {
+                np = nbuf;
                 INT32ENCODE(np, (int32)(*vp)->numrecs);
-                if ((sdd_aid = Hstartwrite(handle->hdf_file, DFTAG_SDD, sddref, 0)) == FAIL)
-                    HGOTO_FAIL(FAIL);
                 if (Hseek(sdd_aid, 2, DF_START) == FAIL || Hwrite(sdd_aid, 4, nbuf) != 4) {
                     Hendaccess(sdd_aid);
                     HGOTO_FAIL(FAIL);
                 }
-                if (Hendaccess(sdd_aid) == FAIL)
-                    HGOTO_FAIL(FAIL);
             }
+            if (Hendaccess(sdd_aid) == FAIL)
+                HGOTO_FAIL(FAIL);
         }
+    }
 #endif /* WRITE_NDG */
-
-    } /* end if we need to flush out unlimited dimensions? */
 
 done:
     return ret_value;
